@@ -21,6 +21,9 @@ CHECKS = {
  "C06": dict(cat="model_checking", engine="bfs", technique="explicit-state BFS to closure over send/deliver/drop/duplicate/retry-timer histories of two real ReliableSender+Listener endpoints and of the stepped real Bridge/Executor receive loops; exhaustive frame-sequence enumeration for framing",
              text="All reachable states within a fault budget (drops/duplications) and an early-timer budget are enumerated on the real sender/listener code with max retries lowered to 3; in every state a fair closure (no more faults) must end with each message handed up exactly once or the sender raising, and a black-hole closure must end with the sender raising; the same for the real Bridge.recv_events/Executor.recv_loop stepped one pass at a time; all 781 frame sequences of length <=4 are fed to Listener._recv_one.",
              note="max_retries_per_message lowered by the harness; zmq reconnect/HWM not modelled; faults apply to frames between controller and executor only.", ref="DESIGN.md 3 C06"),
+ "C07": dict(cat="model_checking", engine="bfs", technique="explicit-state BFS to closure over real DataServer objects stepped one loop pass at a time (issue/deliver/drop/duplicate/complete-future/retry-timer), end-state oracle at every terminal state",
+             text="For each scenario (transfer, redundant transfers, transfer+fetch, purge at target after the announcement, purge at source during a retry read, transfer to a holder, two datasets) all interleavings within a fault budget are enumerated to closure on the real DataServer, Listener, shm client/server/Manager code; terminal states must hold exactly one byte-identical copy, one announcement, one fetched payload, and nothing may be stored again after a processed purge.",
+             note="Purges reach a data server only as the executor/controller can send them (after announcement / after the transfer was answered); futures complete at explorer-chosen steps; shm capacity ample.", ref="DESIGN.md 3 C07"),
  "C08": dict(cat="model_checking", engine="bfs", technique="explicit-state BFS over operation histories of the real shm client/server/Manager/Disk bodies with capacity invariants in every state; conformance replay on real shared memory and threads",
              text="Every history (bounded depth, or closure where reached) of allocate/finish-write/get/finish-read/purge and disk-job completions (ok or failing at two points) is executed on the real stack; after every event the ground-truth segment bytes, the protocol-derived resident total and the free space reported over the protocol are compared, and admission answers are checked.",
              note="Disk job body+callback atomic at the chosen completion step; purge in transitional states follows the store; fake SharedMemory validated against the real one by replaying histories.", ref="DESIGN.md 3 C08"),
@@ -89,7 +92,7 @@ def main():
         "engines": [
             {"name": "simcluster", "path": "vf/simcluster.py", "serves_properties": ["C01", "C02", "C03", "C04"],
              "kind_free_text": "stateless DFS with prefix replay + state-hash pruning over the real controller.run against a reference cluster behind the Bridge interface"},
-            {"name": "bfs", "path": "vf/checks", "serves_properties": ["C06", "C08", "C09", "C18"],
+            {"name": "bfs", "path": "vf/checks", "serves_properties": ["C06", "C07", "C08", "C09", "C18"],
              "kind_free_text": "explicit-state BFS over operation histories (fresh real objects rebuilt per history, canonical state hashing)"},
             {"name": "enumeration", "path": "vf/checks", "serves_properties": ["C10", "C11", "C12", "C13", "C14", "C15", "C16", "C17", "C19"],
              "kind_free_text": "bounded-exhaustive input/program enumeration against a reference model"},
